@@ -391,6 +391,37 @@ func TestC09(t *testing.T) {
 			c09Eval(t, c)
 		}
 	}
+	// size: the same configuration as one small file, as one file of 18 MiB (comment lines between and after its sections)
+	// and as three files of 6 MiB each
+	if ev.Mine(7) {
+		whole := cfg.Config{Meta: cfg.Meta{Pkg: sp("app")},
+			Params: []cfg.Param{{Name: "first", Val: cfg.Int(1)}, {Name: "last", Val: cfg.Str("z")}},
+			Services: []cfg.Service{
+				{Name: "a", Ctor: sp("fx/lib.NewObj"), Args: []cfg.Val{cfg.Str("%first%")}, Calls: []cfg.Call{{Method: "Call1", Args: []cfg.Val{cfg.Int(10)}}, {Method: "Call2", Args: []cfg.Val{cfg.Int(20)}}}, Fields: []cfg.Field{{Name: "FieldA", Val: cfg.Int(7)}}, Tags: []cfg.Tag{{Name: "t"}}},
+				{Name: "z", Ctor: sp("fx/lib.NewObj"), Args: []cfg.Val{cfg.Str("@a"), cfg.Str("%last%")}, Getter: sp("GetZ")}},
+			Decorators: []cfg.Decorator{{Tag: "t", Fn: "fx/lib.Decorate", Args: []cfg.Val{cfg.Str("%last%")}}}}
+		pad := strings.Repeat("# "+strings.Repeat("padding ", 15)+"\n", 6<<20/123+1) // about 6 MiB
+		text, err := cfg.Emit(whole, cfg.Style{})
+		if err == nil {
+			// comment blocks in front of every top-level key and at the end
+			var sb strings.Builder
+			for _, line := range strings.SplitAfter(text, "\n") {
+				if line != "" && line[0] >= 'a' && line[0] <= 'z' && (strings.HasPrefix(line, "services") || strings.HasPrefix(line, "decorators")) {
+					sb.WriteString(pad)
+				}
+				sb.WriteString(line)
+			}
+			sb.WriteString(pad)
+			c09Eval(t, c09Case{Whole: whole, Files: []cfg.Config{whole}, Raw: []string{sb.String()}, Names: []string{"big.yaml"}, Patterns: []string{"big.yaml"}, Labels: []string{"size:one-file-of-18-MiB"}})
+			parts := []cfg.Config{{Meta: whole.Meta, Params: whole.Params}, {Services: whole.Services}, {Decorators: whole.Decorators}}
+			var raws []string
+			for _, p := range parts {
+				pt, _ := cfg.Emit(p, cfg.Style{})
+				raws = append(raws, pad+pt+pad)
+			}
+			c09Eval(t, c09Case{Whole: whole, Files: parts, Raw: raws, Names: []string{"m0.yaml", "c1.yaml", "x2.yaml"}, Patterns: []string{"m0.yaml", "c1.yaml", "x2.yaml"}, Bracket: 1, Labels: []string{"size:three-files-of-12-MiB"}})
+		}
+	}
 	col.Exhaustive(fmt.Sprintf("%d overriding pairs, one per attribute (scalars later-wins, maps united key-wise, non-empty arguments replace, empty arguments keep, calls/tags/decorators append), each as explicit list and under one glob", len(overridePairs())))
 
 	setRapidChecks(pick(120, 1200))
